@@ -113,6 +113,20 @@ def real_check(run, what, fid):
     run.inconclusive.append('abstract counterexample (%s) not reproduced by the real engine on the small-limit instances' % what)
 
 
+def real_report_check(run, what):
+    """an abstract counterexample about info lines for unfinished iterations: look for it on the real binary -- with a spent
+    clock no iteration can complete, so no info line may appear"""
+    for inst in (['position startpos', 'go wtime 0 btime 0'], ['position startpos', 'go wtime 1 btime 1 winc 0 binc 0'], ['position startpos', 'go movetime 0'],
+                 ['position startpos', 'go nodes 1']):
+        out, err = real_engine(run, inst, wait=2.0)
+        il = [l for l in out.split('\n') if l.startswith('info') and ' depth ' in l]
+        if il:
+            run.violation('%s: after `%s` the engine prints %d info lines (first: %s) although no iteration can complete' % (what, '; '.join(inst), len(il), il[0][:80]),
+                          {'lines': inst, 'info_lines': len(il)})
+            return
+    run.inconclusive.append('abstract counterexample (%s) not reproduced by the real engine on the spent-budget instances' % what)
+
+
 def ply_eq(a, b):
     """z3 Bool: two Ply values agree on every component both of them carry"""
     ta, tb = dict(B.ply_terms(a)), dict(B.ply_terms(b))
@@ -268,10 +282,23 @@ def step_iter(run, cfg):
         newbs = ite(cut, ite(b_and(upd, had), some(sc), old_bs), some(sc))
         ctx.ex.store_to(ctx.st, sp.root, base + (('f', 4), ('f', 0)), newbm)
         ctx.ex.store_to(ctx.st, sp.root, base + (('f', 4), ('f', 1)), newbs)
-        # a cut is sticky: the running flag is cleared (limits_exceeded does that itself for node / movetime limits)
+        # a cut is sticky: either the running flag was cleared (stop, node budget, movetime: limits_exceeded clears it
+        # itself), or the clock budget of a clocked search was reached -- then the flag stays set, but the clock has
+        # passed the budget and never runs backwards
+        clears = z3.Bool('iteration_%d_cut_clears_flag' % k)
+        by_clock = z3.And(cut, z3.Not(clears))
+        any_clock = z3.Or(L('wtime'), L('btime'), L('winc'), L('binc'))
+        # the effective budget is the one in the Search value now (search() derives it from the mover's clock)
+        timer = S[3][run.prog.field_index('search::limits::SearchLimits', 'time_management_timer')]
+        tsome = opt_is_some(timer)
+        tval = timer.pay[1][0] if 1 in timer.pay and timer.pay[1] else None
+        ex.assume(z3.Implies(by_clock, z3.And(any_clock, zb(tsome))) if tval is not None else z3.Not(by_clock))
+        if tval is not None:
+            env.env.setdefault('clock_floor', []).append((z3.And(by_clock, zb(tsome)), bv(tval)))
+        iters[-1]['by_clock'] = by_clock
         cell = S[0]
         cur = ctx.deref(cell)
-        ctx.write(cell, ('atomic', b_and(cur[1], b_not(cut))))
+        ctx.write(cell, ('atomic', b_and(cur[1], b_not(z3.And(cut, clears)))))
         nn = z3.BitVec('nodes_after_iter_%d' % k, 64)
         ex.assume(z3.ULT(nn, 1 << 50))
         ctx.ex.store_to(ctx.st, sp.root, base + (('f', 4), ('f', 2)), nn)
